@@ -47,7 +47,8 @@ REQUIRED = ['export_legacy_function', 'export_other_column_name',
 _TAXA = ['k__Bacteria', 'p__Firmicutes', 'c__[Bacilli]', 'o__é', 'g__日本',
          's__x y', 'Unassigned', 'f__a/b', "d__it's", 'q__"x"']
 ID_OK = ['ascii', 'one', 'long', 'punct', 'space', 'slash', 'numeric',
-         'natsort', 'latin1', 'cjk', 'astral', 'prefix', 'case', 'mixed']
+         'natsort', 'latin1', 'cjk', 'astral', 'prefix', 'case', 'reserved',
+         'mixed']
 
 
 def plan(tier):
